@@ -36,6 +36,10 @@ type c17Case struct {
 	text    string
 	enhStr  string
 	generic bool
+	// 0: fresh connection; 1, 2: the connection has already carried a chunked
+	// transfer that the backend refused early with an error of its own (2: the
+	// error of the case is then delivered through BDAT LAST instead of DATA)
+	Hist int `json:"hist,omitempty"`
 }
 
 var codeLike = regexp.MustCompile(`^[0-9]+\.[0-9]+\.[0-9]+$`)
@@ -141,8 +145,33 @@ func (c *c17Case) run() (string, error) {
 	c.script(srv.BE)
 	conv := []string{"EHLO c17.test\r\n", "MAIL FROM:<a@x.test>\r\n", "RCPT TO:<b@x.test>\r\n", "DATA\r\nhello\r\n.\r\n"}
 	idx := map[string]int{"NewSession": 0, "Mail": 1, "Rcpt": 2, "Data": 3}[c.Callback]
+	if c.Hist == 2 {
+		conv[3] = "BDAT 7 LAST\r\nhello\r\n"
+	}
 	var reply wire.Reply
 	for i := 0; i <= idx; i++ {
+		if i == 1 && c.Hist > 0 {
+			// the earlier transfer, with an error of its own
+			be := srv.BE
+			be.Lock()
+			be.DataPlans = append([]rec.DataPlan{{ReadMode: rec.ReadNone, Err: &smtp.SMTPError{Code: 552, EnhancedCode: smtp.EnhancedCode{5, 2, 2}, Message: "the earlier message was refused"}}}, be.DataPlans...)
+			if len(be.MailErrs) > 0 {
+				be.MailErrs = append([]error{nil}, be.MailErrs...)
+			}
+			if len(be.RcptErrs) > 0 {
+				be.RcptErrs = append([]error{nil}, be.RcptErrs...)
+			}
+			be.Unlock()
+			prs, _, err := cn.Replies([]byte("MAIL FROM:<p@x.test>\r\nRCPT TO:<q@x.test>\r\nBDAT 7\r\n1234567"))
+			if err != nil {
+				cn.Close()
+				return "", err
+			}
+			if len(prs) != 3 || prs[2].Code != 552 {
+				cn.Close()
+				return fmt.Sprintf("the earlier transfer was answered %v", codes(prs)), nil
+			}
+		}
 		rs, _, err := cn.Replies([]byte(conv[i]))
 		if err != nil {
 			cn.Close()
@@ -312,6 +341,9 @@ func genC17(maxLines, maxToks int) []*c17Case {
 				continue // no code of its own to quote
 			}
 			c := &c17Case{Callback: cbs[n%4], Code: codesL[(n/4)%6], Enh: enh, Msg: m}
+			if c.Callback != "NewSession" {
+				c.Hist = (n / 4) % 3
+			}
 			n++
 			own := fmt.Sprintf("%d.7.1", c.Code/100)
 			if enh == "unset" {
